@@ -8,3 +8,40 @@ reg('C01', 'exploration',
     'Post-condition monitor on Fitter.fit: every row of every result is compared with a longdouble bounded least-squares optimum computed from package truth (objective gap, clamping, re-optimised scale, chi^2 = residual sum + limit penalties) over thousands of generated (package, law, source, A_V range) executions with regime quotas.',
     TRUST + ' Regression condition number >= 1e-8; float32 memmap compared with a propagated bound.',
     'runtime contract (icontract) + reference-model oracle over generated workloads', '4/C01')
+
+reg('C02', 'exploration',
+    'State probe after Fitter construction (distance grid: ends, log-uniform, spacing<=step, fewest points; per-distance model fluxes vs python aperture interpolation, clamp above, refuse below, (1kpc/d)^2) and post-condition on Fitter.fit (chi^2 is the grid minimum, attained at the reported distance; A_V is the clipped 1-parameter optimum there) against a longdouble reference from package truth.',
+    TRUST + ' Distance-grid size when L/step is an integer to 1e-9: n or n+1. Ties between distances free. float32 paths compared with stated dex bounds.',
+    'runtime state probe + post-condition contract + reference-model oracle over generated workloads', '4/C02')
+reg('C03', 'exploration',
+    'Metamorphic monitor over paired Fitter.fit executions for every flag vector in {0,1,2,3,4,9}^n (n<=4 quick, n<=5 thorough, exhaustive) x fresh photometry x both modes: hostile values in ignored slots leave outputs bit-identical and equal to band removal; limit->flag 0 leaves the solution unchanged and changes chi^2 by exactly the penalty on the forbidden side; confidence 0 = flag 0; confidence 1 => >=1e30; flag 1 rewritten as flag 4 gives the reference optimum of the original data. The C01/C02 numeric reference runs on every regular base fit.',
+    TRUST + ' Predicted flux within 1e-9 dex of a limit: either outcome. Limits carry positive finite fluxes.',
+    'metamorphic runtime monitor (paired executions) + reference oracle, exhaustive small scope', '4/C03')
+reg('C04', 'exploration',
+    'Post-condition monitor on Fitter.fit: structural invariant INV-FI (equal lengths, chi^2 non-decreasing with NaN suffix, unique ids), each model exactly once, model_id/name refer to the same package row, and row coherence: chi^2 and the stored predicted fluxes recomputed from the truth fluxes of the model the row names at the row\'s own A_V/scale/distance. Workloads include exact ties, 1e30 rows, remove_resolved, 1 and 200 models.',
+    TRUST + ' remove_resolved only with use_memmap=False; tie order free.',
+    'structural invariant + row-coherence oracle at the Fitter.fit boundary', '4/C04')
+reg('C05', 'exploration',
+    'snapshot+post-condition contract on FitInfo.keep against a set-theoretic reading of docs/select_syntax.rst with IEEE comparisons: expected survivor count, survivors are the prefix of the pre-call arrays with all per-fit arrays cut alike and n_fits equal; idempotence and looser-selector-first compositions; every ordered chi^2 vector of length <=4 (quick) / <=5 (thorough) over {0,1,2.5,7,1e30,inf,NaN}, all selector forms with thresholds mid-way between attained values.',
+    TRUST + " ('A', value) two-element form; thresholds never equal an attained value (docs say below, code says <=).",
+    'runtime contract with snapshot (icontract) + executable model, exhaustive small scope', '4/C05')
+reg('C11', 'exploration',
+    'Online snapshot/post-condition on every Fitter.fit (source object and fitter state bit-identical before/after) plus metamorphic pairs compared per model name: filter permutations (all 720 of 6 filters in thorough), model-row permutations, flux scaling over 8 decades (scale shifts by -0.5 log10 c), fit histories (all orderings of <=4 preceding fits, sampled 6) bit-identical to a fresh fitter.',
+    TRUST + ' Filter permutations re-associate sums: 1e-9/cond on parameters.',
+    'snapshot contract + metamorphic history/permutation pairs', '4/C11')
+reg('C12', 'exploration',
+    'write->read round trips of SED, SEDCube and ConvolvedFluxes over the configuration matrix (axis order x read order x 4 flux units x apertures/uncertainties present or absent x memmap x aperture length unit) with position-encoding values compared cell-wise by wavelength value; other-order read is the exact reversal; cube->SED extraction; post-condition contracts on the readers (requested order honoured, wav*nu=c).',
+    TRUST + ' SED files materialise one dummy aperture by design.',
+    'round-trip monitor with position-encoding values + reader post-conditions; configuration matrix enumerated', '4/C12')
+reg('C14', 'exploration',
+    'Post-condition contract on Extinction.get_av against an independent python interpolation (-0.4 chi/chi_V, 0 outside, -0.4 at V within 4 ulp), invariance pairs (chi x c over 16 decades, 5 wavelength units x 2 opacity units), refusals of non-length queries, round trips through pickle, table and the text-file reader with every column pair.',
+    TRUST + ' Queries within 1e-12 relative of a table end are a don\'t-care; tables must increase and cover V.',
+    'runtime contract + reference interpolation + invariance pairs', '4/C14')
+reg('C15', 'exploration',
+    'Post-condition contract on convert_flux (patched in every importing namespace) and SED.read(unit_flux=) over the enumerated 5x5 unit matrix x unit-string spellings (legacy, FITS standard, SED.write) against explicit cgs factors; A->B->A identity, A->B->C = A->C; unsupported stored/requested units refused.',
+    TRUST + ' rtol 1e-12.',
+    'runtime contract + explicit-constant oracle; unit matrix enumerated', '4/C15')
+reg('C20', 'exploration',
+    'Post-condition contract on Source.from_ascii (every successful parse compared with an independent reading of the line; accepted malformed lines flagged) plus outcome classification at the call boundary (object / EOFError / other error) for every column count 0..3n+6, n<=12, all flag vectors n<=3, every bad flag token in every position; round trips to_ascii, dict, pickle.',
+    TRUST + ' Flag tokens are plain decimal integers.',
+    'runtime contract + outcome classification, exhaustive over column counts / small flag alphabets', '4/C20')
